@@ -134,10 +134,16 @@ PENDING = "check not built yet in this round (planned, see DESIGN.md section 11)
 
 MC = {
     "C01": ["OkHasBody", "StreamOwnerIsReserver", "NoGhostInvoke"], "C02": ["StreamOwnerIsReserver", "OkHasBody"],
-    "C03": ["RuntimeAfterRegistrations", "NoEventBeforeAllNext"], "C04": ["DoneOnlyAfterAll"],
-    "C05": ["NoGhostInvoke", "NoCrash"], "C07": ["NoCrash"], "C08": ["ResetIsFresh"], "C10": ["NoCrash", "StreamOwnerIsReserver"],
+    "C03": ["RuntimeAfterRegistrations", "NoEventBeforeAllNext"], "C04": ["DoneOnlyAfterAll", "EventsOnlyToSubscribers"],
+    "C05": ["NoGhostInvoke", "NoCrash"], "C07": ["NoCrash"], "C08": ["ResetIsFresh"],
+    "C09": ["EventsOnlyToSubscribers", "NoCrash"],
+    "C10": ["NoCrash", "StreamOwnerIsReserver", "OkHasBody", "NoGhostInvoke (two-caller configuration included)"],
+    "C18": ["RestoreOkOnlyAfterHook", "NoCrash", "RuntimeAfterRegistrations (snapshot-mode configuration included)"],
 }
-FORCED = {"C02": "stale-in-flight", "C03": "clear-vs-invoke", "C05": "ghost-invoke, clear-vs-invoke", "C08": "watch-late-cancel, clear-vs-invoke"}
+FORCED = {"C02": "stale-in-flight", "C03": "clear-vs-invoke, register-vs-close", "C04": "dispatch-held",
+          "C05": "ghost-invoke, clear-vs-invoke, stale-shutdown", "C08": "watch-late-cancel, clear-vs-invoke",
+          "C10": "double-reset, late-release"}
+SIMULATED = ("C07", "C12", "C13")
 RAPID = ["C01", "C02", "C03", "C04", "C05", "C06", "C07", "C08", "C09", "C10", "C12", "C13", "C14", "C15", "C18"]
 
 
@@ -155,7 +161,11 @@ def main():
         if pid in RAPID:
             c["text"] += (" The property predicates of spec/Rapid.tla (PropHolds) are evaluated in every state of the behaviour that "
                           "explains a recorded trace; a failing predicate is reported even when the trace is explainable.")
-        if pid in ("C01", "C10"):
+        if pid in SIMULATED:
+            c["text"] += (" One scenario family consists of environment programs generated by TLC: simulated behaviours of spec/MC_Rapid.tla "
+                          "(bounds beyond the exhaustive configurations, with API misuse) whose environment steps are replayed on the real stack.")
+            c["technique"] += "; TLC-simulated behaviours replayed into the implementation"
+        if pid in ("C01", "C05", "C10", "C14"):
             c["text"] += (" The HTTP front end (cmd/aws-lambda-rie InvokeHandler, compiled unchanged into the harness through a build "
                           "overlay) is specified in spec/FrontEnd.tla (once-only initialisation under a mutex, status mapping), model-checked, "
                           "and scenario families entering through it are validated against spec/Trace_FrontEnd.tla in addition.")
